@@ -1,0 +1,488 @@
+//go:build verif
+
+/*
+ * Atree - Scalable Arrays and Ordered Maps
+ *
+ * Copyright Flow Foundation
+ *
+ * Licensed under the Apache License, Version 2.0 (the "License");
+ * you may not use this file except in compliance with the License.
+ * You may obtain a copy of the License at
+ *
+ *   http://www.apache.org/licenses/LICENSE-2.0
+ *
+ * Unless required by applicable law or agreed to in writing, software
+ * distributed under the License is distributed on an "AS IS" BASIS,
+ * WITHOUT WARRANTIES OR CONDITIONS OF ANY KIND, either express or implied.
+ * See the License for the specific language governing permissions and
+ * limitations under the License.
+ */
+
+package atree
+
+import (
+	"bytes"
+	"fmt"
+	"sort"
+
+	"github.com/fxamacker/cbor/v2"
+)
+
+// Verification hooks for the slab codec checks (reported sizes, round trips, header flags).
+// This file only exists for the compiler when the build tag "verif" is set.  It adds
+// read-only accessors and calls existing unexported encode helpers into scratch buffers;
+// it does not change any existing declaration.
+
+// VerifCodecConsts lists the CBOR tag numbers and the head masks the byte-level model is stated over.
+func VerifCodecConsts() []VerifConst {
+	return []VerifConst{
+		{"minInternalCBORTagNumber", uint64(minInternalCBORTagNumber)},
+		{"maxInternalCBORTagNumber", uint64(maxInternalCBORTagNumber)},
+		{"CBORTagTypeInfoRef", uint64(CBORTagTypeInfoRef)},
+		{"CBORTagInlinedArrayExtraData", uint64(CBORTagInlinedArrayExtraData)},
+		{"CBORTagInlinedMapExtraData", uint64(CBORTagInlinedMapExtraData)},
+		{"CBORTagInlinedCompactMapExtraData", uint64(CBORTagInlinedCompactMapExtraData)},
+		{"CBORTagInlinedArray", uint64(CBORTagInlinedArray)},
+		{"CBORTagInlinedMap", uint64(CBORTagInlinedMap)},
+		{"CBORTagInlinedCompactMap", uint64(CBORTagInlinedCompactMap)},
+		{"CBORTagInlineCollisionGroup", uint64(CBORTagInlineCollisionGroup)},
+		{"CBORTagExternalCollisionGroup", uint64(CBORTagExternalCollisionGroup)},
+		{"CBORTagSlabID", uint64(CBORTagSlabID)},
+		{"maskVersion", uint64(maskVersion)},
+		{"maskHasNextSlabID", uint64(maskHasNextSlabID)},
+		{"maskHasInlinedSlabs", uint64(maskHasInlinedSlabs)},
+		{"maskSlabRoot", uint64(maskSlabRoot)},
+		{"maskSlabHasPointers", uint64(maskSlabHasPointers)},
+		{"maskSlabAnySize", uint64(maskSlabAnySize)},
+		{"maskArrayData", uint64(maskArrayData)},
+		{"maskArrayMeta", uint64(maskArrayMeta)},
+		{"maskMapData", uint64(maskMapData)},
+		{"maskMapMeta", uint64(maskMapMeta)},
+		{"maskCollisionGroup", uint64(maskCollisionGroup)},
+		{"maskStorable", uint64(maskStorable)},
+		{"maxVersion", uint64(maxVersion)},
+		{"inlinedExtraDataArrayCount", uint64(inlinedExtraDataArrayCount)},
+		{"arrayExtraDataLength", uint64(arrayExtraDataLength)},
+		{"mapExtraDataLength", uint64(mapExtraDataLength)},
+		{"compactMapExtraDataLength", uint64(compactMapExtraDataLength)},
+	}
+}
+
+// VerifSections are the section lengths of one slab encoding, measured twice:
+// by running the existing encode helpers into scratch buffers (Enc*) and by parsing
+// the produced bytes with the in-repo getExtraDataSizes (Parsed*).
+type VerifSections struct {
+	Total                  int
+	EncExtraData           int
+	EncInlinedExtraData    int
+	ParsedExtraData        int
+	ParsedInlinedExtraData int
+	InlinedExtraDataCount  int  // entries of the shared inlined-extra-data section (after de-duplication)
+	HasNext                bool // the encoding contains a next-slab identifier
+	HeadHasNext            bool // head bit
+	HeadHasInlined         bool // head bit
+	Bytes                  []byte
+}
+
+func verifEncodeExtra(x ExtraData, mode cbor.EncMode) (int, error) {
+	var buf bytes.Buffer
+	enc := NewEncoder(&buf, mode)
+	if err := x.Encode(enc, defaultEncodeTypeInfo); err != nil {
+		return 0, err
+	}
+	if err := enc.CBOR.Flush(); err != nil {
+		return 0, err
+	}
+	return buf.Len(), nil
+}
+
+func verifEncodeInlined(elemEnc *Encoder, mode cbor.EncMode) (int, int, error) {
+	if err := elemEnc.CBOR.Flush(); err != nil {
+		return 0, 0, err
+	}
+	if !elemEnc.hasInlinedExtraData() {
+		return 0, 0, nil
+	}
+	var buf bytes.Buffer
+	enc := NewEncoder(&buf, mode)
+	if err := elemEnc.inlinedExtraData().Encode(enc); err != nil {
+		return 0, 0, err
+	}
+	if err := enc.CBOR.Flush(); err != nil {
+		return 0, 0, err
+	}
+	return buf.Len(), len(elemEnc.inlinedExtraData().extraData), nil
+}
+
+// VerifEncodeSections encodes a (not inlined) slab and measures its sections.
+func VerifEncodeSections(slab Slab, mode cbor.EncMode) (sec VerifSections, err error) {
+	b, err := EncodeSlab(slab, mode)
+	if err != nil {
+		return sec, err
+	}
+	sec.Bytes = b
+	sec.Total = len(b)
+	if len(b) < versionAndFlagSize {
+		return sec, fmt.Errorf("encoding shorter than the head")
+	}
+	h, err := newHeadFromData(b[:versionAndFlagSize])
+	if err != nil {
+		return sec, err
+	}
+	sec.HeadHasNext = h.hasNextSlabID()
+	sec.HeadHasInlined = h.hasInlinedSlabs()
+	if _, isStorable := slab.(*StorableSlab); !isStorable {
+		sec.ParsedExtraData, sec.ParsedInlinedExtraData, err = getExtraDataSizes(h, b[versionAndFlagSize:])
+		if err != nil {
+			return sec, err
+		}
+	}
+
+	switch s := slab.(type) {
+	case *ArrayDataSlab:
+		if s.extraData != nil {
+			if sec.EncExtraData, err = verifEncodeExtra(s.extraData, mode); err != nil {
+				return sec, err
+			}
+		}
+		var buf bytes.Buffer
+		elemEnc := NewEncoder(&buf, mode)
+		if err = s.encodeElements(elemEnc); err != nil {
+			return sec, err
+		}
+		if sec.EncInlinedExtraData, sec.InlinedExtraDataCount, err = verifEncodeInlined(elemEnc, mode); err != nil {
+			return sec, err
+		}
+		sec.HasNext = s.next != SlabIDUndefined
+
+	case *MapDataSlab:
+		if s.extraData != nil {
+			if sec.EncExtraData, err = verifEncodeExtra(s.extraData, mode); err != nil {
+				return sec, err
+			}
+		}
+		var buf bytes.Buffer
+		elemEnc := NewEncoder(&buf, mode)
+		if err = s.encodeElements(elemEnc); err != nil {
+			return sec, err
+		}
+		if sec.EncInlinedExtraData, sec.InlinedExtraDataCount, err = verifEncodeInlined(elemEnc, mode); err != nil {
+			return sec, err
+		}
+		sec.HasNext = s.next != SlabIDUndefined
+
+	case *ArrayMetaDataSlab:
+		if s.extraData != nil {
+			if sec.EncExtraData, err = verifEncodeExtra(s.extraData, mode); err != nil {
+				return sec, err
+			}
+		}
+
+	case *MapMetaDataSlab:
+		if s.extraData != nil {
+			if sec.EncExtraData, err = verifEncodeExtra(s.extraData, mode); err != nil {
+				return sec, err
+			}
+		}
+
+	case *StorableSlab:
+
+	default:
+		return sec, fmt.Errorf("unknown slab type %T", slab)
+	}
+	return sec, nil
+}
+
+// Structural dump (a self-delimiting vector of integers).  Layout, every node with its cached size:
+//
+//	slab      = 1 addr idx size count inlined X(3) nextAddr nextIdx n storable*n            array data slab
+//	          | 2 addr idx size count X(3) n (addr idx count size)*n                        array index slab
+//	          | 3 addr idx size firstKey inlined X(3) xcount xseed nextAddr nextIdx anySize collisionGroup compact elements
+//	          | 4 addr idx size firstKey X(3) xcount xseed n (addr idx firstKey size)*n     map index slab
+//	          | 5 addr idx size storable                                                    storable slab
+//	X(3)      = hasExtraData typeInfoKind typeInfoValue     (zeros when absent; kind/value come from the caller)
+//	elements  = 1 level size n hkey*n m element*m  |  2 level size m element*m
+//	element   = 1 size storable storable | 2 size elements | 3 size addr idx
+//	storable  = 3 size addr idx | 5 size slab(1...) | 6 size slab(3...) | whatever the caller's leaf function returns
+//
+// With normalize=true, inlined maps of composite type are dumped independent of seed and
+// internal order (seed, first key and hkeys zeroed/dropped, elements sorted), which is what
+// the compact encoding is allowed to change.
+type VerifDumper struct {
+	// Leaf dumps storables that atree does not define (it may call Storable for wrapped ones).
+	Leaf func(d *VerifDumper, s Storable) []uint64
+	// TypeInfo returns (kind, value) describing a type info.
+	TypeInfo  func(ti TypeInfo) (uint64, uint64)
+	Normalize bool
+}
+
+func verifB(b bool) uint64 {
+	if b {
+		return 1
+	}
+	return 0
+}
+
+func (d *VerifDumper) x3(ti TypeInfo, has bool) []uint64 {
+	if !has {
+		return []uint64{0, 0, 0}
+	}
+	k, v := d.TypeInfo(ti)
+	return []uint64{1, k, v}
+}
+
+// Storable dumps one storable.
+func (d *VerifDumper) Storable(s Storable) []uint64 {
+	switch v := s.(type) {
+	case SlabIDStorable:
+		id := SlabID(v)
+		return []uint64{3, uint64(v.ByteSize()), id.AddressAsUint64(), id.IndexAsUint64()}
+	case *ArrayDataSlab:
+		return append([]uint64{5, uint64(v.ByteSize())}, d.Slab(v)...)
+	case *MapDataSlab:
+		return append([]uint64{6, uint64(v.ByteSize())}, d.Slab(v)...)
+	}
+	return d.Leaf(d, s)
+}
+
+func (d *VerifDumper) element(e element) []uint64 {
+	switch v := e.(type) {
+	case *singleElement:
+		out := []uint64{1, uint64(v.size)}
+		out = append(out, d.Storable(v.key)...)
+		return append(out, d.Storable(v.value)...)
+	case *inlineCollisionGroup:
+		return append([]uint64{2, uint64(v.Size())}, d.elements(v.elements, false)...)
+	case *externalCollisionGroup:
+		return []uint64{3, uint64(v.size), v.slabID.AddressAsUint64(), v.slabID.IndexAsUint64()}
+	}
+	return []uint64{9}
+}
+
+func (d *VerifDumper) elements(es elements, normalize bool) []uint64 {
+	switch v := es.(type) {
+	case *hkeyElements:
+		out := []uint64{1, uint64(v.level), uint64(v.size)}
+		if normalize {
+			out = append(out, 0)
+		} else {
+			out = append(out, uint64(len(v.hkeys)))
+			for _, h := range v.hkeys {
+				out = append(out, uint64(h))
+			}
+		}
+		out = append(out, uint64(len(v.elems)))
+		parts := make([][]uint64, len(v.elems))
+		for i, e := range v.elems {
+			parts[i] = d.element(e)
+		}
+		if normalize {
+			sort.Slice(parts, func(i, j int) bool { return verifLess(parts[i], parts[j]) })
+		}
+		for _, p := range parts {
+			out = append(out, p...)
+		}
+		return out
+	case *singleElements:
+		out := []uint64{2, uint64(v.level), uint64(v.size), uint64(len(v.elems))}
+		for _, e := range v.elems {
+			out = append(out, d.element(e)...)
+		}
+		return out
+	}
+	return []uint64{9}
+}
+
+func verifLess(a, b []uint64) bool {
+	for i := 0; i < len(a) && i < len(b); i++ {
+		if a[i] != b[i] {
+			return a[i] < b[i]
+		}
+	}
+	return len(a) < len(b)
+}
+
+// Slab dumps one slab (standalone or inlined).
+func (d *VerifDumper) Slab(slab Slab) []uint64 {
+	switch s := slab.(type) {
+	case *ArrayDataSlab:
+		id := s.header.slabID
+		out := []uint64{1, id.AddressAsUint64(), id.IndexAsUint64(), uint64(s.header.size), uint64(s.header.count), verifB(s.inlined)}
+		if s.extraData != nil {
+			out = append(out, d.x3(s.extraData.TypeInfo, true)...)
+		} else {
+			out = append(out, d.x3(nil, false)...)
+		}
+		out = append(out, s.next.AddressAsUint64(), s.next.IndexAsUint64(), uint64(len(s.elements)))
+		for _, e := range s.elements {
+			out = append(out, d.Storable(e)...)
+		}
+		return out
+
+	case *ArrayMetaDataSlab:
+		id := s.header.slabID
+		out := []uint64{2, id.AddressAsUint64(), id.IndexAsUint64(), uint64(s.header.size), uint64(s.header.count)}
+		if s.extraData != nil {
+			out = append(out, d.x3(s.extraData.TypeInfo, true)...)
+		} else {
+			out = append(out, d.x3(nil, false)...)
+		}
+		out = append(out, uint64(len(s.childrenHeaders)))
+		for _, h := range s.childrenHeaders {
+			out = append(out, h.slabID.AddressAsUint64(), h.slabID.IndexAsUint64(), uint64(h.count), uint64(h.size))
+		}
+		return out
+
+	case *MapDataSlab:
+		id := s.header.slabID
+		norm := d.Normalize && s.inlined && s.extraData != nil && s.extraData.TypeInfo.IsComposite()
+		firstKey := uint64(s.header.firstKey)
+		if norm {
+			firstKey = 0
+		}
+		out := []uint64{3, id.AddressAsUint64(), id.IndexAsUint64(), uint64(s.header.size), firstKey, verifB(s.inlined)}
+		if s.extraData != nil {
+			out = append(out, d.x3(s.extraData.TypeInfo, true)...)
+			seed := s.extraData.Seed
+			if norm {
+				seed = 0
+			}
+			out = append(out, s.extraData.Count, seed)
+		} else {
+			out = append(out, d.x3(nil, false)...)
+			out = append(out, 0, 0)
+		}
+		compact := false
+		if s.inlined && s.extraData != nil {
+			_, _, _, compact = s.canBeEncodedAsCompactMap()
+		}
+		out = append(out, s.next.AddressAsUint64(), s.next.IndexAsUint64(), verifB(s.anySize), verifB(s.collisionGroup), verifB(compact))
+		return append(out, d.elements(s.elements, norm)...)
+
+	case *MapMetaDataSlab:
+		id := s.header.slabID
+		out := []uint64{4, id.AddressAsUint64(), id.IndexAsUint64(), uint64(s.header.size), uint64(s.header.firstKey)}
+		if s.extraData != nil {
+			out = append(out, d.x3(s.extraData.TypeInfo, true)...)
+			out = append(out, s.extraData.Count, s.extraData.Seed)
+		} else {
+			out = append(out, d.x3(nil, false)...)
+			out = append(out, 0, 0)
+		}
+		out = append(out, uint64(len(s.childrenHeaders)))
+		for _, h := range s.childrenHeaders {
+			out = append(out, h.slabID.AddressAsUint64(), h.slabID.IndexAsUint64(), uint64(h.firstKey), uint64(h.size))
+		}
+		return out
+
+	case *StorableSlab:
+		out := []uint64{5, s.slabID.AddressAsUint64(), s.slabID.IndexAsUint64(), uint64(s.ByteSize())}
+		return append(out, d.Storable(s.storable)...)
+	}
+	return []uint64{9}
+}
+
+// VerifCompactSaving returns, for an inlined map that is written in compact form, the number of
+// bytes its in-line encoding is shorter than its reported size (keys, digests and the fixed-width
+// element heads are hoisted into the shared section); 0 for every other storable.
+func VerifCompactSaving(st Storable) (saving int, compact bool) {
+	m, ok := st.(*MapDataSlab)
+	if !ok || !m.inlined || m.extraData == nil {
+		return 0, false
+	}
+	_, keys, _, ok := m.canBeEncodedAsCompactMap()
+	if !ok {
+		return 0, false
+	}
+	// reported: inlined prefix + hkey elements prefix + per element (digest + [2] head + key + value)
+	// written : inlined prefix + canonical array head + values
+	saving = int(hkeyElementsPrefixSize) - int(GetUintCBORSize(uint64(len(keys))))
+	for _, k := range keys {
+		saving += int(digestSize) + int(singleElementPrefixSize) + int(k.ByteSize())
+	}
+	return saving, true
+}
+
+// VerifSlabKind: 1 array data, 2 array index, 3 map data, 4 map index, 5 storable, 6 external collision group data slab.
+func VerifSlabKind(slab Slab) int {
+	switch s := slab.(type) {
+	case *ArrayDataSlab:
+		return 1
+	case *ArrayMetaDataSlab:
+		return 2
+	case *MapDataSlab:
+		if s.collisionGroup {
+			return 6
+		}
+		return 3
+	case *MapMetaDataSlab:
+		return 4
+	case *StorableSlab:
+		return 5
+	}
+	return 0
+}
+
+// VerifSlabHasExtraData reports whether the slab carries extra data (is the root of a value).
+func VerifSlabHasExtraData(slab Slab) bool {
+	switch s := slab.(type) {
+	case *ArrayDataSlab:
+		return s.extraData != nil
+	case *ArrayMetaDataSlab:
+		return s.extraData != nil
+	case *MapDataSlab:
+		return s.extraData != nil
+	case *MapMetaDataSlab:
+		return s.extraData != nil
+	}
+	return false
+}
+
+// VerifSlabAnySize reports the in-memory "exempt from the size limit" marker.
+func VerifSlabAnySize(slab Slab) bool {
+	switch s := slab.(type) {
+	case *MapDataSlab:
+		return s.anySize
+	case *StorableSlab:
+		return true
+	}
+	return false
+}
+
+// VerifMapElementStats counts, over a map data slab's own element tree (not inlined children):
+// plain entries, inline collision groups, external collision groups, list-mode element lists
+// (no digests left) and the deepest digest level.
+func VerifMapElementStats(slab Slab) (singles, inlineGroups, externalGroups, listModes int, maxLevel uint) {
+	m, ok := slab.(*MapDataSlab)
+	if !ok {
+		return
+	}
+	var walk func(es elements)
+	walk = func(es elements) {
+		switch v := es.(type) {
+		case *hkeyElements:
+			if v.level > maxLevel {
+				maxLevel = v.level
+			}
+			for _, e := range v.elems {
+				switch g := e.(type) {
+				case *singleElement:
+					singles++
+				case *inlineCollisionGroup:
+					inlineGroups++
+					walk(g.elements)
+				case *externalCollisionGroup:
+					externalGroups++
+				}
+			}
+		case *singleElements:
+			listModes++
+			if v.level > maxLevel {
+				maxLevel = v.level
+			}
+			singles += len(v.elems)
+		}
+	}
+	walk(m.elements)
+	return
+}
